@@ -5,7 +5,6 @@ CONSTANTS
 CONSTRAINT AcceptC
 INVARIANT HolderOnly
 INVARIANT Contiguous
-INVARIANT BlockShape
 INVARIANT OnceInOrder
 INVARIANT Released
 INVARIANT FaultsSurface
